@@ -7,7 +7,7 @@ MAP = [("secs2/", ["C01", "C02", "C12", "C16"]), ("sml/", ["C14"]), ("hsms/decod
        ("hsms/control_msg.go", ["C03", "C08", "C12"]), ("internal/wire/", ["C03", "C12"]), ("secs1/transport.go", ["C09", "C17"]), ("secs1/", ["C17"]),
        ("hsmsss/transport_recv.go", ["C04", "C05", "C07", "C08"]), ("hsmsss/transport_procedures.go", ["C19", "C07", "C08"]), ("hsmsss/transport.go", ["C10"]), ("hsmsss/transport_control.go", ["C07", "C08"]),
        ("hsms/connection_send.go", ["C06", "C07", "C09", "C20"]), ("hsms/connection_runtime.go", ["C06", "C20"]),
-       ("hsms/connection_lifecycle.go", ["C05", "C09", "C10", "C11", "C20"]), ("hsms/supervisor.go", ["C05"]), ("hsms/session.go", ["C06", "C07"])]
+       ("hsms/connection_lifecycle.go", ["C05", "C09", "C10", "C11", "C20"]), ("hsms/supervisor.go", ["C05"]), ("hsms/session.go", ["C06", "C07"]), ("hsms/reply_registry.go", ["C06"])]
 env = dict(os.environ, GOVC_NOEVIDENCE="1", GOVC_REPLAYDIR="/tmp/govc-neutral-replays", GOVC_MAX_REPLAYS="0")
 bad = 0
 for d in [os.path.abspath(x) for x in sys.argv[1:]]:
